@@ -1,9 +1,10 @@
 #!/bin/bash
-# usage: lib/seedall.sh   - confirms every seeded defect and runs the checks of the property it breaks
-# (plus the extra properties named in seeded/<x>/also) against it; writes seeded/<x>/result.txt
+# usage: lib/seedall.sh [seed-id ...]  - confirms seeded defects and runs the checks of the property each one
+# breaks (plus the properties named in seeded/<x>/also) against it; writes seeded/<x>/result.txt
 cd /verif
-for d in seeded/*/; do
-  s=$(basename $d); p=${s%%-*}
+if [ $# -gt 0 ]; then L="$@"; else L=$(ls -d seeded/*/ | xargs -n1 basename); fi
+for s in $L; do
+  d=seeded/$s; p=${s%%-*}
   extra=$(cat $d/also 2>/dev/null)
   { lib/seedconfirm.sh $d; lib/seedtest.sh $d $p $extra; } > $d/result.txt 2>&1
   echo "$s: $(grep -c '^VIOLATION' $d/result.txt) violation line(s), $(grep -E '^   exit=' $d/result.txt | tr '\n' ' ')"
